@@ -4,35 +4,48 @@
 // W: key_schedule with h uninterpreted (one harness per key length), the 16 rounds of encrypt_block /
 //    decrypt_block on an arbitrary (s, k, start) state with g_func uninterpreted; round trips with g_func
 //    uninterpreted (Feistel: any function works).
+//
+// Within one harness execution the key (for h) resp. the cipher state (for g_func) is fixed, so the leaf is an
+// uninterpreted function of the remaining arguments only ((offset, x) resp. x); the stub *checks* that the
+// implementation passes exactly that key / k / state (obligations VERIF_H_ARGS / VERIF_G_ARGS).  The context is
+// kept in a static so that the native replay can evaluate the concrete leaf.
 use super::prelude::*;
 use crate::consts::{MDS_POLY, RS_POLY};
 use crate::Twofish;
 use cipher::{BlockCipherDecrypt, BlockCipherEncrypt, KeyInit};
 use refmodels::twofish as r;
 
-// ---- h as uninterpreted function of (L = the k key words it uses, packed; k and x packed)
-fn pack_l(m: &[u8], k: usize, offset: usize) -> u128 {
-    let mut v = 0u128;
-    let mut j = 0;
-    while j < 4 {
-        if j < k {
-            let o = 4 * (2 * j + offset);
-            v |= (u32::from_le_bytes([m[o], m[o + 1], m[o + 2], m[o + 3]]) as u128) << (32 * j);
-        }
-        j += 1;
-    }
-    v
+// ---- h(., key, k, .) as uninterpreted function of (offset, x)
+pub mod hk {
+    pub static mut KEY: [u8; 32] = [0; 32];
+    pub static mut K: usize = 0;
 }
-fn h_native(l: u128, kx: u64) -> u32 {
-    let lw = [l as u32, (l >> 32) as u32, (l >> 64) as u32, (l >> 96) as u32];
-    r::h(kx as u32, &lw, (kx >> 32) as usize)
+fn h_native(off: u8, x: u32) -> u32 {
+    let (key, k) = unsafe { (hk::KEY, hk::K) };
+    r::h_key(x, &key[..8 * k], k, off as usize)
 }
-uf2!(uf_h, u128, u64, u32, [B0 B1], h_native);
+uf2!(uf_h, u8, u32, u32, [B0 B1], h_native);
 pub fn stub_h(x: u32, m: &[u8], k: usize, offset: usize) -> u32 {
-    uf_h::call(pack_l(m, k, offset), ((k as u64) << 32) | x as u64)
+    #[cfg(kani)]
+    unsafe {
+        let mut ok = k == hk::K && m.len() == 8 * k && offset < 2;
+        let mut i = 0;
+        while i < 32 {
+            if i < m.len() {
+                ok &= m[i] == hk::KEY[i];
+            }
+            i += 1;
+        }
+        kani::assert(ok, "VERIF_H_ARGS");
+    }
+    uf_h::call(offset as u8, x)
 }
 
-// ---- g_func as uninterpreted function of (S-box key bytes packed; start and x packed)
+// ---- g_func(state, .) as uninterpreted function of x
+pub mod gk {
+    pub static mut S: [u8; 16] = [0; 16];
+    pub static mut START: usize = 0;
+}
 fn s_words(s: &[u8; 16]) -> [u32; 4] {
     [
         u32::from_le_bytes([s[0], s[1], s[2], s[3]]),
@@ -41,16 +54,26 @@ fn s_words(s: &[u8; 16]) -> [u32; 4] {
         u32::from_le_bytes([s[12], s[13], s[14], s[15]]),
     ]
 }
-fn g_native(s: u128, sx: u64) -> u32 {
-    let sw = [s as u32, (s >> 32) as u32, (s >> 64) as u32, (s >> 96) as u32];
-    r::g(sx as u32, &sw, 4 - (sx >> 32) as usize)
+fn g_native(x: u32) -> u32 {
+    let (s, start) = unsafe { (gk::S, gk::START) };
+    r::g(x, &s_words(&s), 4 - start)
 }
-uf2!(uf_g, u128, u64, u32, [B0 B1], g_native);
+uf1!(uf_g, u32, u32, [B0 B1], g_native);
 pub fn stub_g(c: &Twofish, x: u32) -> u32 {
-    uf_g::call(u128::from_le_bytes(c.s), ((c.start as u64) << 32) | x as u64)
+    #[cfg(kani)]
+    unsafe {
+        let mut ok = c.start == gk::START;
+        let mut i = 0;
+        while i < 16 {
+            ok &= c.s[i] == gk::S[i];
+            i += 1;
+        }
+        kani::assert(ok, "VERIF_G_ARGS");
+    }
+    uf_g::call(x)
 }
 
-//@ harness name=tf_leaf_q prop=C08,C20 tier=quick bits=9 est=15 desc="L: sbox(i, x) == q_i(x) of the paper (t0..t3 tables, 4-bit rotations) for i in {0,1} and all 256 x"
+//@ harness name=tf_leaf_q prop=C08,C20 tier=quick bits=9 est=10 desc="L: sbox(i, x) == q_i(x) of the paper (t0..t3 tables, 4-bit rotations) for i in {0,1} and all 256 x"
 verif_harness! {
     name: tf_leaf_q,
     bytes: 2,
@@ -61,7 +84,7 @@ verif_harness! {
     }
 }
 
-//@ harness name=tf_leaf_gf prop=C08,C20 tier=quick bits=24 est=20 desc="L: gf_mult(a, b, p) never panics for all (a, b, p); gf_mult(a, b, 0x69) / gf_mult(a, b, 0x4d) == carry-less product reduced modulo 0x169 / 0x14D for all a, b"
+//@ harness name=tf_leaf_gf prop=C08,C20 tier=quick bits=24 est=15 desc="L: gf_mult(a, b, p) never panics for all (a, b, p); gf_mult(a, b, 0x69) / gf_mult(a, b, 0x4d) == carry-less product reduced modulo 0x169 / 0x14D for all a, b"
 verif_harness! {
     name: tf_leaf_gf,
     bytes: 3,
@@ -74,7 +97,7 @@ verif_harness! {
     }
 }
 
-//@ harness name=tf_leaf_mds prop=C08,C20 tier=quick bits=42 est=30 desc="L: mds_mult(y) == MDS matrix times y over GF(2^8)/0x169 for all 2^32 y; mds_column_mult(x, c) == x times column c for all x, c < 4"
+//@ harness name=tf_leaf_mds prop=C08,C20 tier=quick bits=42 est=15 desc="L: mds_mult(y) == MDS matrix times y over GF(2^8)/0x169 for all 2^32 y; mds_column_mult(x, c) == x times column c for all x, c < 4"
 verif_harness! {
     name: tf_leaf_mds,
     bytes: 6,
@@ -90,7 +113,7 @@ verif_harness! {
     }
 }
 
-//@ harness name=tf_leaf_rs prop=C08,C20 tier=quick bits=64 est=30 desc="L: rs_mult(m) == RS matrix times m over GF(2^8)/0x14D for all 2^64 m"
+//@ harness name=tf_leaf_rs prop=C08,C20 tier=quick bits=64 est=20 desc="L: rs_mult(m) == RS matrix times m over GF(2^8)/0x14D for all 2^64 m"
 verif_harness! {
     name: tf_leaf_rs,
     bytes: 8,
@@ -103,7 +126,7 @@ verif_harness! {
     }
 }
 
-//@ harness name=tf_leaf_h prop=C08,C20 tier=quick bits=291 est=60 desc="L: h(x, key[..8k], k, offset) == the paper's h(X, M_e) (offset 0) / h(X, M_o) (offset 1) for k in {2,3,4} (symbolic), every x, every key; also ties the packed argument of the uninterpreted h to the oracle h(X, L)"
+//@ harness name=tf_leaf_h prop=C08,C20 tier=quick bits=291 est=40 desc="L: h(x, key[..8k], k, offset) == the paper's h(X, M_e) (offset 0) / h(X, M_o) (offset 1) for k in {2,3,4} (symbolic), every x, every key"
 verif_harness! {
     name: tf_leaf_h,
     bytes: 38,
@@ -115,13 +138,11 @@ verif_harness! {
         let off = inp[37] as usize;
         vassume!(k >= 2 && k <= 4 && off < 2);
         let m = &key[..8 * k];
-        let v = crate::h(x, m, k, off);
-        vcheck!(v == r::h_key(x, m, k, off));
-        Some(v == h_native(pack_l(m, k, off), ((k as u64) << 32) | x as u64))
+        Some(crate::h(x, m, k, off) == r::h_key(x, m, k, off))
     }
 }
 
-fn arb_state<const N: usize>(inp: &[u8; N]) -> Option<(Twofish, [u32; 40], [u8; 16])> {
+fn state(inp: &[u8; 193], start: usize) -> (Twofish, [u32; 40], [u8; 16]) {
     let s: [u8; 16] = take(inp, 0);
     let mut k = [0u32; 40];
     let mut i = 0;
@@ -129,35 +150,67 @@ fn arb_state<const N: usize>(inp: &[u8; N]) -> Option<(Twofish, [u32; 40], [u8; 
         k[i] = take_u32(inp, 16 + 4 * i);
         i += 1;
     }
+    unsafe {
+        gk::S = s;
+        gk::START = start;
+    }
+    (Twofish { s, k, start }, k, take(inp, 177))
+}
+/// Arbitrary state under the representation invariant of new_from_slice: start = 4 - (key bytes / 8) in {0, 1, 2}.
+fn arb_state(inp: &[u8; 193]) -> Option<(Twofish, [u32; 40], [u8; 16])> {
     let start = inp[176] as usize;
-    // representation invariant of new_from_slice: start = 4 - (key bytes / 8) in {0, 1, 2}
     if start > 2 {
         return None;
     }
-    Some((Twofish { s, k, start }, k, take(inp, 177)))
+    Some(state(inp, start))
 }
 
-//@ harness name=tf_leaf_g prop=C08,C20 tier=quick bits=162 est=60 desc="L: Twofish::g_func(x) == h(X, (S_{k-1},..,S_0)) of the paper for every S-box key s, start in {0,1,2} (k = 4 - start), every x"
+fn g_prop(inp: &[u8; 20], start: usize) -> Option<bool> {
+    let s: [u8; 16] = take(inp, 0);
+    let x = take_u32(inp, 16);
+    let c = Twofish { s, k: [0u32; 40], start };
+    Some(c.g_func(x) == r::g(x, &s_words(&s), 4 - start))
+}
+
+//@ harness name=tf_leaf_g_k2 prop=C08,C20 tier=quick bits=160 est=60 desc="L: Twofish::g_func(x) with start = 2 (128-bit keys) == h(X, (S_1, S_0)) of the paper for every S-box key s and every x"
 verif_harness! {
-    name: tf_leaf_g,
-    bytes: 193,
+    name: tf_leaf_g_k2,
+    bytes: 20,
     unwind: 45,
-    prop: |inp| {
-        let (c, _k, blk) = match arb_state(inp) { Some(v) => v, None => return None };
-        let x = u32::from_le_bytes([blk[0], blk[1], blk[2], blk[3]]);
-        let v = c.g_func(x);
-        vcheck!(v == r::g(x, &s_words(&c.s), 4 - c.start));
-        Some(v == g_native(u128::from_le_bytes(c.s), ((c.start as u64) << 32) | x as u64))
-    }
+    prop: |inp| { g_prop(inp, 2) }
+}
+
+//@ harness name=tf_leaf_g_k3 prop=C08,C20 tier=quick bits=160 est=60 desc="L: Twofish::g_func(x) with start = 1 (192-bit keys) == h(X, (S_2, S_1, S_0)) for every s and every x"
+verif_harness! {
+    name: tf_leaf_g_k3,
+    bytes: 20,
+    unwind: 45,
+    prop: |inp| { g_prop(inp, 1) }
+}
+
+//@ harness name=tf_leaf_g_k4 prop=C08,C20 tier=quick bits=160 est=60 desc="L: Twofish::g_func(x) with start = 0 (256-bit keys) == h(X, (S_3, S_2, S_1, S_0)) for every s and every x"
+verif_harness! {
+    name: tf_leaf_g_k4,
+    bytes: 20,
+    unwind: 45,
+    prop: |inp| { g_prop(inp, 0) }
 }
 
 fn ks_prop<const KB: usize>(inp: &[u8; KB]) -> Option<bool> {
     let key: [u8; KB] = take(inp, 0);
+    let kk = KB / 8;
+    unsafe {
+        let mut i = 0;
+        while i < KB {
+            hk::KEY[i] = key[i];
+            i += 1;
+        }
+        hk::K = kk;
+    }
     let c = match Twofish::new_from_slice(&key) {
         Ok(c) => c,
         Err(_) => return Some(false),
     };
-    let kk = KB / 8;
     let e = r::key_schedule_with(&key, kk, stub_h);
     let mut i = 0;
     while i < 40 {
